@@ -46,19 +46,45 @@ type faultStore struct {
 	// reads counts Get calls; readHook (if set) is called with the running number, outside any lock
 	reads        atomic.Int64
 	lastActivity atomic.Int64
-	readHook     func(n int64)
+	// read-fault injection: the getFailAt-th Get (iterFailAt-th NewIterator) returns an error
+	// (…All: so does every later one); Has calls count as Gets
+	getFailAt, iterFailAt   int64
+	getFailAll, iterFailAll bool
+	iters                   atomic.Int64
+	readsFailed             atomic.Int64
+	onReadFail              func()
+	readHook                func(n int64)
 }
 
 // touch records store activity (used to tell a hung migration from a slow one).
 func (s *faultStore) touch() { s.lastActivity.Store(time.Now().UnixNano()) }
 
+var errInjectedRead = errors.New("verif: injected read failure (I/O error)")
+
+func (s *faultStore) readFault(n, at int64, all bool) bool {
+	if at > 0 && (n == at || (all && n > at)) {
+		s.readsFailed.Add(1)
+		if s.onReadFail != nil {
+			s.onReadFail()
+		}
+		return true
+	}
+	return false
+}
+
 func (s *faultStore) Has(key []byte) (bool, error) {
 	s.touch()
+	if s.readFault(s.reads.Add(1), s.getFailAt, s.getFailAll) {
+		return false, errInjectedRead
+	}
 	return s.Database.Has(key)
 }
 
 func (s *faultStore) NewIterator(prefix []byte, withUpperBound bool) (db.Iterator, error) {
 	s.touch()
+	if s.readFault(s.iters.Add(1), s.iterFailAt, s.iterFailAll) {
+		return nil, errInjectedRead
+	}
 	return s.Database.NewIterator(prefix, withUpperBound)
 }
 
@@ -90,6 +116,9 @@ func (s *faultStore) Get(key []byte, cb func([]byte) error) error {
 	n := s.reads.Add(1)
 	if s.readHook != nil {
 		s.readHook(n)
+	}
+	if s.readFault(n, s.getFailAt, s.getFailAll) {
+		return errInjectedRead
 	}
 	return s.Database.Get(key, cb)
 }
